@@ -40,6 +40,9 @@ var handShapes = []string{
 	`{ beings { ... on Human { name ... on Human { __typename } } ... on Pet { id kind } } }`,
 	`{ beings { ... on Human { id name ... on Human { __typename } } ... on Pet { kind weight } } }`,
 	`{ humans { pets { kind } } beings { ... on Pet { __typename weight } ... on Human { id phone } } }`,
+	// the client's own id under an alias or a directive, next to a fragment that gets a helper id
+	`{ me { uid: id ... on Human { name } } }`,
+	`{ humans { uid: id ... on Human { friend { uid: id ... on Human { name } } } } }`,
 	// a helper added for an abstract type condition (fix 580253b; formerly the listed finding C01-node-fragment-in-object)
 	`{ humans { pets { ... on Node { id } kind weight } } }`,
 }
